@@ -20,6 +20,7 @@ from ..mag import mag_value, close
 
 use_repo()
 from pgradd.Units import eval_qty, Quantity                     # noqa: E402
+from pgradd.Units.qty import FundamentalUnits                   # noqa: E402
 from pgradd.Units import (in_units, with_units, has_units,      # noqa: E402
                           to_SI_from, from_SI_to)
 
@@ -275,6 +276,47 @@ def _check_def(ctx, ta, tb):
                           % (ta, tb, c, tb, ta, d), {'kind': 'def', 'a': ta, 'b': tb})
 
 
+def _display(ctx, thorough):
+    """UnitShow.tla: the display of base-dimension exponents.  The texts the spec
+    derives (the expected rendering and the pinned code's) are unit expressions, so
+    their evaluation is C10 and is checked like any case; how the code *writes* a
+    dimension is beyond the listed properties: compared with ShowImpl, recorded,
+    never alarmed."""
+    import contextlib
+    import io
+    out, r = ctx.tlc_json('UnitShow', 'UnitShow_t.cfg' if thorough else 'UnitShow_q.cfg',
+                          {}, workers=16, timeout=3000)
+    rows = out['rows']
+    if len(rows) != out['total'] or not rows:
+        raise MachineryError('UnitShow exported %d of %s rows' % (len(rows), out['total']))
+    agree_impl = agree_show = deep = 0
+    differs = []
+    for row in rows:
+        show, impl, build = uncodes(row['show']), uncodes(row['impl']), uncodes(row['build'])
+        ctx.count('show:' + show)
+        _check_case(ctx, show, row['rshow'], 'show')
+        if impl != show:
+            _check_case(ctx, impl, row['rimpl'], 'show')
+        deep += bool(row['deep'])
+        with contextlib.redirect_stdout(io.StringIO()):      # __str__ prints a debugging line
+            kind, v, _ = call(lambda: str(eval_qty(build).units) if build != '1'
+                              else str(FundamentalUnits.null()))
+        agree_impl += (kind == 'value' and v == impl)
+        agree_show += (kind == 'value' and v == show)
+        if not (kind == 'value' and v == impl) and len(differs) < 5:
+            differs.append({'dimension': build, 'str': repr(v), 'ShowImpl': impl})
+    ctx.extra['beyond_properties_unit_display'] = {
+        'spec': 'UnitShow.tla (RoundTrip, BuildDenotes, ImplRoundTrip, SameWhenShallow, Injective)',
+        'dimensions': len(rows), 'distinct_states': r.distinct,
+        'str_equals_ShowImpl': agree_impl, 'str_equals_Show': agree_show,
+        'dimensions_whose_str_reads_back_as_another_dimension': deep,
+        'differs_from_ShowImpl': differs,
+        'note': 'str(units) keeps the negative exponent after the bar (J -> m^2*kg/s^(-2), which '
+                'denotes m^2*kg*s^2); outside every listed property: recorded, not alarmed'}
+    ctx.log('UnitShow: %d dimensions, str = ShowImpl on %d, = Show on %d'
+            % (len(rows), agree_impl, agree_show))
+
+
 def run(ctx):
     thorough = ctx.tier == 'thorough'
     cfg = 'MC_Units_t.cfg' if thorough else 'MC_Units_q.cfg'
@@ -321,6 +363,7 @@ def run(ctx):
     ctx.sample({'session_prefix': ['%s %r -> %s' % (e['op'], e['_text'],
                                    'value' if e['obs']['ok'] else e['obs']['cls'])
                                    for e in sessions[0][:5]]})
+    _display(ctx, thorough)
     ctx.exhaustive = True
     ctx.assumptions += [
         'magnitudes compared at relative 1e-12 (1e-11 in random sessions)',
